@@ -630,6 +630,32 @@ var customKinds = [][2]string{
 	{"a/b/c", "Deployment"}, {"-", "Deployment"}, {"apps/v1", "-"}, {"batch/v1beta1", "Job2"}, {"apps/v1", "deployment"},
 }
 
+// every Kind name that has a kind-specific rule, under every group that does NOT select that rule (the dispatch key is
+// "group/Kind", or "Kind" for the core group): a custom resource that merely shares the name of a built-in kind, and a
+// built-in kind name under the wrong group, must be judged by the generic rules
+func init() {
+	builtin := map[string]bool{"/Service": true, "/Pod": true, "/Secret": true, "/PersistentVolumeClaim": true, "/ConfigMap": true,
+		"apps/StatefulSet": true, "apps/DaemonSet": true, "extensions/DaemonSet": true, "apps/Deployment": true, "extensions/Deployment": true,
+		"apps/ReplicaSet": true, "extensions/ReplicaSet": true, "policy/PodDisruptionBudget": true, "batch/CronJob": true, "batch/Job": true,
+		"apiextensions.k8s.io/CustomResourceDefinition": true}
+	kinds := []string{"Service", "Pod", "Secret", "PersistentVolumeClaim", "ConfigMap", "StatefulSet", "DaemonSet", "Deployment", "ReplicaSet",
+		"PodDisruptionBudget", "CronJob", "Job", "CustomResourceDefinition"}
+	groups := []string{"", "apps", "extensions", "batch", "policy", "apiextensions.k8s.io", "example.com", "serving.knative.dev"}
+	for _, k := range kinds {
+		for _, g := range groups {
+			if builtin[g+"/"+k] {
+				continue
+			}
+			av := "v1"
+			if g != "" {
+				av = g + "/v1"
+			}
+			customKinds = append(customKinds, [2]string{av, k})
+		}
+	}
+	customGrid.radices[0] = len(customKinds)
+}
+
 var customGrid = kindGrid{
 	name:    "custom",
 	radices: []int{9, 8, 2},
